@@ -41,7 +41,7 @@ def rand_closed_tree(rng, pns=(), depth=0, maxdepth=3):
         return list(out.items())
     kids = [rand_closed_tree(rng, ns.items(), depth + 1, maxdepth) for _ in range(rng.randint(0, 3) if depth < maxdepth else 0)]
     return impl.T(rng.choice(["a", "title", "para", "é", "x-y", gen.rand_text(rng, 3) or "n"]), rng.choice([None, "", gen.rand_text(rng, 10)]), kids, d(),
-                  tail=rng.choice([None, None, "", "\n  ", gen.rand_text(rng, 4)]), prefix=rng.choice([None, None] + list(ns.keys())),
+                  tail=rng.choice([None, None, "", "\n  ", gen.rand_text(rng, 4)]), prefix=rng.choice([None, None] + list(ns.keys()) + (["zzUnbound", "xml", ""] if rng.random() < 0.2 else [])),   # a prefix is a field like any other: it need not be bound by the node's own map
                   extras=d(), nsmap=shuffled(rng, list(ns.items())))
 
 
